@@ -1,6 +1,14 @@
 //! Kani harnesses for wow-wmo (copied into the scratch copy as src/verif_kani.rs by /verif/check).
+#![allow(unused_imports, dead_code)]
 use crate::chunk::ChunkHeader;
-use crate::types::ChunkId;
+use crate::types::{ChunkId, Color};
+use crate::wmo_types::WmoPortalReference;
+
+include!("verif_blocks.rs");
+
+/// stand-ins for `wmo.header.ambient_color` in the colour-packing statement of write_header
+pub struct HdrColorInner { pub ambient_color: Color }
+pub struct HdrColor { pub header: HdrColorInner }
 
 fn stub_format(_args: core::fmt::Arguments<'_>) -> String {
     String::new()
@@ -47,4 +55,41 @@ fn u15_3_chunk_header_short_input() {
     kani::assume(n < 8);
     let mut src: &[u8] = &buf[..n];
     assert!(ChunkHeader::read(&mut src).is_err(), "fewer than 8 bytes is rejected");
+}
+
+// MOHD ambient colour: the packed dword is laid out B,G,R,A in the file (little-endian), and the parser's unpacking
+// statement inverts the writer's packing statement for every colour (two E11 blocks, loop-free, all 2^32 colours)
+// @harness unit=U15.4 props=C15 kind=complete timeout=120 target="writer.rs: write_header colour packing (E11 block); parser.rs: parse_header colour unpacking (E11 block)" oracle=wmo_roundtrip
+#[kani::proof]
+#[kani::unwind(4)]
+#[kani::stub(alloc::fmt::format, stub_format)]
+fn u15_4_mohd_color_codec() {
+    let c = Color { r: kani::any(), g: kani::any(), b: kani::any(), a: kani::any() };
+    let w = HdrColor { header: HdrColorInner { ambient_color: c } };
+    let packed = blk_mohd_color_pack(&w);
+    let le = packed.to_le_bytes();
+    assert!(le[0] == c.b && le[1] == c.g && le[2] == c.r && le[3] == c.a, "ambient colour is stored as B,G,R,A");
+    let back = blk_mohd_color_unpack(packed);
+    assert!(back.r == c.r && back.g == c.g && back.b == c.b && back.a == c.a, "ambient colour survives write -> parse");
+}
+
+// MOPR: 8 bytes per reference, three little-endian u16 (portal, group, side) and a pad word; every full entry is parsed
+// @harness unit=U15.5 props=C15 kind=bounded bound="chunk payloads of 0, 7 and 17 bytes (0, 0 and 2 references plus a partial entry); every byte value" timeout=600 target="parser.rs: parse_portal_references entry loop (E11 block)" oracle=wmo_roundtrip
+#[kani::proof]
+#[kani::unwind(20)]
+#[kani::stub(alloc::fmt::format, stub_format)]
+fn u15_5_portal_refs_parse() {
+    let bytes: [u8; 17] = kani::any();
+    // concrete payload lengths (a symbolic Vec length exhausts CBMC): empty, short of one entry, two entries + 1 byte
+    let k: u8 = kani::any();
+    let n: usize = if k % 3 == 0 { 0 } else if k % 3 == 1 { 7 } else { 17 };
+    let refs = if n == 0 { blk_parse_portal_refs(Vec::new()) } else if n == 7 { blk_parse_portal_refs(bytes[..7].to_vec()) } else { blk_parse_portal_refs(bytes[..17].to_vec()) };
+    assert!(refs.len() == n / 8, "one reference per full 8 bytes");
+    let i: usize = kani::any();
+    kani::assume(i < refs.len());
+    let o = 8 * i;
+    assert!(refs[i].portal_index == u16::from_le_bytes([bytes[o], bytes[o + 1]]), "portal index");
+    assert!(refs[i].group_index == u16::from_le_bytes([bytes[o + 2], bytes[o + 3]]), "group index");
+    assert!(refs[i].side == u16::from_le_bytes([bytes[o + 4], bytes[o + 5]]), "side is the full 16-bit word");
+    core::mem::forget(refs);
 }
